@@ -41,4 +41,16 @@ def mapCoords (f : Int → Except FErr Int) (rows : List (Int × Int)) : Except 
     | _, .error e => .error e
     | .ok a, .ok b => .ok (a, b)) rows
 
+/-- python's `<=` on 2-tuples of ints (lexicographic) -/
+def rowLe (p q : Int × Int) : Bool := p.1 < q.1 || (p.1 = q.1 && p.2 ≤ q.2)
+
+def insertRow (p : Int × Int) : List (Int × Int) → List (Int × Int)
+  | [] => [p]
+  | q :: qs => if rowLe p q then p :: q :: qs else q :: insertRow p qs
+
+/-- `sorted(rows)` for rows that are pairs of ints (a total order: every correct sort gives this list) -/
+def sortRows : List (Int × Int) → List (Int × Int)
+  | [] => []
+  | p :: ps => insertRow p (sortRows ps)
+
 end CogentModel.FeatureView
